@@ -220,6 +220,12 @@ func C06(c *Ctx) {
 				prefixFns[s.Fn] = true
 			}
 		}
+		// the path test is on whole path components: HasPrefix(<notation path>, <destination path> + ".")
+		if subj := c.O.Of(s.Args()[0]); subj.IsField("option.IdentMatcher.pattern") && s.Fn.Name() != "PartialMatch" {
+			pre := c.O.Of(s.Args()[1])
+			okSep := pre.Kind == "binop" && pre.Name == "+" && pre.Args[0].Kind == "param" && pre.Args[1].Is("const", `"."`)
+			r.Check("C06-4", FnKey(s.Fn)+":component-prefix", c.Pos(s.Pos()), okSep, "a notation path is \"under\" a destination path only at a component boundary (prefix path + \".\"), got prefix "+pre.String()+": `UserName` would count as a member of `User`")
+		}
 	}
 	callsAny := func(fn *ssa.Function, pred func(*ssa.Function, string) bool) bool {
 		found := false
